@@ -623,8 +623,25 @@ class C16(PropertyCheck):
     technique = ("Lean 4 proof over a heap/world model of the mutable attributes (CircuitSimulator, GateCompiler, "
                  "ModelProcessor; classical-bit lists as heap cells so that aliasing is representable) + history "
                  "correspondence with deep snapshots + independent purity/repeat/fresh-object oracle")
-    level_text = ""
-    level_note = ""
+    level_text = ("Lean 4 theorems over a heap/world model whose fields are exactly the mutable attributes of the modelled "
+                  "objects (CircuitSimulator.cbits/_state/_probability/_op_index/_measure_results/_measure_ind, "
+                  "GateCompiler.args/global_phase, processor pulses/global_phase; classical-bit lists as heap cells so that "
+                  "`self.cbits = cbits` is an alias), every public operation being a step World -> Call -> World x Ret; "
+                  "for ALL histories and all inputs, exceptions included: caller-owned lists keep their values "
+                  "(args_unchanged); run/run_statistics return a function of the argument values and the RNG state only, "
+                  "hence equal on repetition and equal to a freshly constructed simulator (repeat_equal, fresh_equivalent); "
+                  "the lists referred to by results of different runs/records are pairwise different and new (no_alias); "
+                  "load_circuit leaves a used processor holding exactly what a fresh one would (fresh_equivalent_load). "
+                  "The model is tied to the code on every run by histories of up to 8 public calls on shared objects with "
+                  "deep (vars()-level, arrays by value) snapshots of every argument before and after every call.")
+    level_note = ("Trusted: Lean kernel (propext, Classical.choice, Quot.sound); Model/Sim.lean + Model/Heap.lean as the list of "
+                  "attributes each call writes (validated by the correspondence, not proved); circuits, gates and states are "
+                  "immutable in the model — that no call writes them, and mutation inside numpy buffers of QuTiP objects, is "
+                  "covered only by the snapshots of the correspondence. The theorems describe the repaired code (fixes "
+                  "C02-1, C16-1, C16-2 as explicit hypotheses cfg.copyCbits / cfg.resetPhase / cfg.pureGetter); the "
+                  "unrepaired behaviours are refuted by kernel-checked counter-examples replayed on the implementation. "
+                  "repeat_equal/fresh_equivalent take the numpy RNG state as an input of unconstrained runs. "
+                  "Processor.run_state (numerical solver) is not exercised (QuTiP 5.3: qutip.Options missing).")
     trusted_base = [
         "Lean 4.33 kernel; axioms propext, Classical.choice, Quot.sound",
         "Model/Sim.lean, Model/Heap.lean as a description of which attributes each public call writes (validated by "
@@ -649,7 +666,7 @@ class C16(PropertyCheck):
 
         # 1. simulator histories with queries and deep snapshots
         cases, impls, lines, snaps_ok = [], [], [], []
-        for it in range(1200 if ctx.thorough else 220):
+        for it in range(6000 if ctx.thorough else 220):
             case = rand_sim_history(rng)
             problems = []
             state = {}
@@ -694,7 +711,7 @@ class C16(PropertyCheck):
                 res.disagree(inp, o[:400], "see `what`", diff, dict(case, calls=[list(c) for c in case["calls"]]))
 
         # 2. processor histories: every prefix of the history is a model request
-        ndev = 120 if ctx.thorough else 24
+        ndev = 600 if ctx.thorough else 24
         for it in range(ndev):
             dev = rand_device(rng)
             try:
@@ -792,7 +809,7 @@ class C16(PropertyCheck):
         return self._sweep(ctx, budget_s, None)
 
     def oracle_always(self, ctx):
-        return self._sweep(ctx, 25, 600 if ctx.thorough else 150)
+        return self._sweep(ctx, 300 if ctx.thorough else 25, 5000 if ctx.thorough else 150)
 
 
 def snap_len(s):
